@@ -86,16 +86,16 @@ func (c *checker) lockAmbiguous(a mm.Addr) bool {
 // marking and reviving the LOCK object itself): the statement lets a lock
 // override expiry and garbage marks only, the ResolveECPart comment says it
 // also ignores tombstones. Views of such an address are not compared.
-func (c *checker) unspecified(a mm.Addr) bool {
+func (c *checker) unspecified(a mm.Addr) bool { return c.unspecifiedAt(a, false) }
+
+func (c *checker) unspecifiedAt(a mm.Addr, ignoreExp bool) bool {
 	m, e := c.w.M, c.w.Epoch
 	q := m.Quirks
-	strict := m.Reasons(a, e, false)
-	strictI := m.Reasons(a, e, true)
+	strict := m.Reasons(a, e, ignoreExp)
 	m.Quirks.LockOverridesTombstone = !q.LockOverridesTombstone
-	other := m.Reasons(a, e, false)
-	otherI := m.Reasons(a, e, true)
+	other := m.Reasons(a, e, ignoreExp)
 	m.Quirks = q
-	return strict != other || strictI != otherI
+	return strict != other
 }
 
 func (c *checker) checkAddr(a mm.Addr) {
@@ -155,7 +155,7 @@ func (c *checker) checkAddr(a mm.Addr) {
 		c.fail("Exists(%s) = %v, stored = %v", a, ex, v.Stored)
 	}
 	// Exists ignoring expiration
-	if !c.lockAmbiguous(a) {
+	if !c.lockAmbiguous(a) && !c.unspecifiedAt(a, true) {
 		r2 := m.Reasons(a, e, true)
 		ex, err = c.db.Exists(addr, true)
 		cls = mm.Classify(err)
